@@ -30,7 +30,10 @@ def cases(ctx):
             rng.random()
         yield {'kind': 'dfa', 'X': gen.random_dfa(rng, 5, rng.choice([['a', 'b'], ['a'], ['0', '1'], []])), 'ns': [0, 1, 2, 3, 4]}
     for i in range(150 * K):
-        yield {'kind': 'nfa', 'X': gen.random_nfa(rng, 5, rng.choice([['a', 'b'], ['a'], ['0', '1'], []])), 'ns': [0, 1, 2, 3, 4]}
+        X = gen.random_nfa(rng, 5, rng.choice([['a', 'b'], ['a'], ['0', '1'], []]))
+        if i % 10 == 3:
+            X['frozen'] = rng.choice(['delta', 'all'])
+        yield {'kind': 'nfa', 'X': X, 'ns': [0, 1, 2, 3, 4]}
     for i in range(150 * K):
         Sg = rng.choice([['a', 'b'], ['a'], ['a', 'b', 'c'], ['0', '1']])
         yield {'kind': 'regexp', 'X': gen.random_regexp(rng, rng.randint(0, 9), Sg), 'ns': [0, 1, 2, 3, 4]}
